@@ -12,6 +12,7 @@ CONSTANTS
   EnvAtQuiet = TRUE
   GenNoFaults = FALSE
   GenHold = 0
+  MaxPhantom = 0
 SPECIFICATION Spec
 INVARIANTS TypeOK
 CHECK_DEADLOCK FALSE
